@@ -259,6 +259,75 @@ def norm_model(line):
     return f[1], d.get("T", "-"), d.get("R", "-"), d.get("G", "0")
 
 
+
+# ------------------------------------------------------------------ (e) yields inside protected calls
+# coroutine.close "runs the pending to-be-closed handlers": also those declared INSIDE pcall / xpcall /
+# runtime.callcontext frames the coroutine is suspended in (nested), innermost first, each handler receiving the
+# error raised by the previous one.  Template family + its expected event log (written from the manual).
+PROT = {"p": ("pcall(function()", "end)"), "x": ("xpcall(function()", "end, function(m) return m end)"),
+        "c": ("runtime.callcontext({}, function()", "end)")}
+
+
+def protected_family():
+    import itertools
+    out = []
+    for d in (1, 2, 3):
+        for kinds in itertools.product("pxc", repeat=d):
+            for outside in (0, 1):
+                for ending in ("close", "closefail", "finish", "error"):
+                    out.append(("".join(kinds), outside, ending))
+    return out
+
+
+def render_protected(kinds, outside, ending):
+    d = len(kinds)
+    L = ['local function tbc(n, fail) return setmetatable({}, {__close=function(_, e) emit("C", n, e); if fail then error(fail, 0) end end}) end',
+         "local co = coroutine.create(function()"]
+    if outside:
+        L.append("  local o <close> = tbc(0)")
+    for i, k in enumerate(kinds, 1):
+        L.append("  " * i + PROT[k][0])
+        L.append("  " * (i + 1) + "local v%d <close> = tbc(%d%s)" % (i, i, ", 7" if (ending == "closefail" and i == d) else ""))
+    L.append("  " * (d + 1) + 'emit("Y", coroutine.yield(1))')
+    L.append("  " * (d + 1) + ('error(5, 0)' if ending == "error" else 'emit("after")'))
+    for i in range(d, 0, -1):
+        L.append("  " * i + PROT[kinds[i - 1]][1])
+    L.append("end)")
+    L.append("emit(coroutine.resume(co))")
+    if ending in ("finish", "error"):
+        L.append("emit(coroutine.resume(co, 9))")
+    else:
+        L.append("emit(coroutine.close(co))")
+    L.append("emit(coroutine.status(co)); emit(coroutine.close(co))")
+    return "\n".join(L)
+
+
+def expected_protected(kinds, outside, ending):
+    d = len(kinds)
+    C, Y = "s43", "s59"
+    ev = ["b1,i1"]
+    if ending in ("close", "closefail"):
+        e = "n"
+        for lvl in range(d, 0, -1):
+            ev.append("%s,i%d,%s" % (C, lvl, e))
+            if ending == "closefail" and lvl == d:
+                e = "i7"
+        if outside:
+            ev.append("%s,i0,%s" % (C, e))
+        res = "b1" if e == "n" else "b0,i7"
+        ev += [res, "s64656164", res]
+    else:
+        ev.append("%s,i9" % Y)
+        if ending == "finish":
+            ev.append("s6166746572")
+        for lvl in range(d, 0, -1):
+            ev.append("%s,i%d,%s" % (C, lvl, "i5" if (ending == "error" and lvl == d) else "n"))
+        if outside:
+            ev.append("%s,i0,n" % C)
+        ev += ["b1", "s64656164", "b1"]
+    return "ok T:" + ";".join(ev) + " R:"
+
+
 # ------------------------------------------------------------------ instrumentation (c)
 TRACE_GO = r'''//go:build veriftrace
 
@@ -434,6 +503,8 @@ def instrument_thread_go(src):
         def f(b):
             b = ins(b, r"^\s*t\.mux\.Lock\(\)", 'veriftraceT("%s", t, %s)' % (lab[0], lab[1]), "before", 1, name)
             b = ins(b, r"^\s*t\.mux\.Lock\(\)", 'veriftrace("s1"); veriftrace("s2")', "after", 1, name)
+            if re.search(r"caller\.resumeDepth >=", b):     # Resume's refusal after the status test (model: LRefuse at R3)
+                b = ins(b, r"^\s*if caller\.resumeDepth >=", 'veriftrace("RF")', "after", 1, name)
             b = ins(b, r"^\s*caller\.mux\.Lock\(\)", 'veriftrace("s3")', "after", 1, name)
             b = ins(b, r"^\s*t\.caller = caller", 'veriftrace("s4")', "before", 1, name)
             b = ins(b, r"^\s*t\.mux\.Unlock\(\)", 'veriftrace("s5")', "before", -1, name)
@@ -564,7 +635,9 @@ def normalise_trace(tr):
         if l[0] == "M":          # what end is about to send (after the handlers may have changed err)
             last_lua[g] = l[1:]
             continue
-        if l[0] == "R":
+        if l == "RF":
+            pass
+        elif l[0] == "R":
             last_lua[g] = "v" + l.split(".")[1]
         elif l[0] == "X":
             last_lua[g] = "c"
@@ -663,6 +736,29 @@ def run(tier, seed):
                              {"kind": "Go!=S", "engine": "thread", "special": nm, "lua": lua, "limits": lim, "impl": o[:1500],
                               "expected_prefix": ex, "expected_goroutines": g, "theorems": ["C09_no_deadlock"]})
     ck.log("(d) %d special scripts" % len(SPECIAL))
+
+    # ---------------- (e) coroutines suspended inside pcall / xpcall / runtime.callcontext with <close> variables, then closed
+    fam = protected_family()
+    fl = ["y%d %s exp=0" % (i, hexsrc(render_protected(*f))) for i, f in enumerate(fam)]
+    fo = par_resilient(gvt, ["script"], fl, per_case_timeout=20)
+    nprot = 0
+    for i, f in enumerate(fam):
+        o = fo[i] if i < len(fo) else "? ?"
+        ck.case("protected:%s:%d:%s" % f, True)
+        ck.count("protected-ending:" + f[2])
+        ck.count("protected-depth:%d" % len(f[0]))
+        exp = expected_protected(*f)
+        got = " ".join(o.split(" ")[1:])
+        if not got.startswith(exp) or " G:0 " not in o + " ":
+            nprot += 1
+            if nprot <= 3:
+                ck.violation("coroutine suspended inside protected calls (%s, outside variable: %d, then %s): the to-be-closed handlers that ran / the results "
+                             "differ from the manual's (close runs ALL pending handlers, innermost first)" % f,
+                             {"kind": "Go!=S", "engine": "thread", "family": "protected-yield", "kinds": f[0], "outside": f[1], "ending": f[2],
+                              "lua": render_protected(*f), "impl": o[:1200], "expected_prefix": exp, "theorems": ["C09_S_die_keeps_delivered_error"]})
+    ck.cov["protected_yield_scripts"] = len(fam)
+    ck.cov["protected_yield_differences"] = nprot
+    ck.log("(e) %d protected-yield scripts, %d differences" % (len(fam), nprot))
 
     # ---------------- (a) scripts
     scripts = []     # (tokens, tbc)
@@ -851,6 +947,8 @@ def run(tier, seed):
         sto = vlib.run_lines_resilient(gtr, ["script"], sl, per_case_timeout=8)
         splines = []
         for j, o in enumerate(sto):
+            if SPECIAL[j][0] == "resumer-chain-too-deep" and tier == "quick":
+                continue     # 21 000 actions: 45 s in the extracted acceptor (functional state); replayed in thorough (accepted, incl. LRefuse)
             g = norm_go(o)
             if g is None:
                 ck.violation("special script %s hangs/crashes on the instrumented build" % SPECIAL[j][0], {"kind": "Go!=IM", "impl": o[:800]}, no_input=True)
